@@ -1,6 +1,7 @@
 package main
 
 import (
+	"bufio"
 	"bytes"
 	"fmt"
 	"io"
@@ -16,9 +17,17 @@ func init() {
 			for i := 0; i < tierN(tier, 400, 5000); i++ {
 				pkg := r.Pick2("flate", "flate", "flate", "gzip", "zlib")
 				s1, _, _ := genContainerStream(r, pkg, "quick")
-				hist := r.Pick2("none", "partial", "partial1", "complete", "error", "truncated", "hdrcut")
+				hist := r.Pick2("none", "partial", "partial1", "complete", "error", "truncated", "hdrcut", "fixed-baddyn")
+				if hist == "fixed-baddyn" {
+					pkg = "flate"
+					s1, _, _ = genContainerStream(r, pkg, "quick")
+				}
 				c := Case{Prop: "C13", Pkg: pkg, Stream: s1, Kind: hist, Reads: readPattern(r), K: 1 + r.Intn(70000)}
 				switch {
+				case hist == "fixed-baddyn":
+					// the next stream relies on the fixed-Huffman tables (shared Reader state) and uses back-references
+					s2, _, d := Synthesize(r, SynthOpts{MaxBlocks: r.Pick([]int{1, 2}), MaxTokens: r.Pick([]int{20, 60, 300}), StdCompat: true, ForceKind: 1})
+					c.Stream2, c.Note = s2, "valid:synth:fixedonly:"+d
 				case pkg == "flate" && r.Intn(2) == 0:
 					f := r.Pick2("dist-beyond", "dist-beyond", "unassigned-code", "no-dist-code-used", "unassigned-dist")
 					s2, _, d := Synthesize(r, SynthOpts{MaxBlocks: 2, MaxTokens: r.Pick([]int{3, 30, 300}), Fault: f})
@@ -163,7 +172,10 @@ func driveHistory(rd io.Reader, kind string, k int) {
 	}
 }
 
+var c13Suffix = []byte("bytes of the caller that follow the compressed stream")
+
 func checkC13(c *Case, st *Stats) *Violation {
+	var bufA, bufB *bufio.Reader
 	s1 := c.Stream
 	switch c.Kind {
 	case "error":
@@ -194,6 +206,13 @@ func checkC13(c *Case, st *Stats) *Violation {
 			}
 		}
 		driveHistory(rd, c.Kind, c.K)
+		if c.Kind == "fixed-baddyn" && c.Pkg == "flate" {
+			// a fixed-Huffman stream, then a dynamic header rejected after its distance table was built
+			rd.(resetter).Reset(bytes.NewReader(histFixed), nil)
+			io.Copy(io.Discard, rd)
+			rd.(resetter).Reset(bytes.NewReader(histBadDyn), nil)
+			io.Copy(io.Discard, rd)
+		}
 		if c.Pkg == "zlib" && c.K%2 == 0 {
 			// a longer history: a dictionary stream, then a plain one (the Reader swaps inflaters on the way)
 			d0 := []byte("an earlier dictionary, an earlier dictionary")
@@ -212,6 +231,11 @@ func checkC13(c *Case, st *Stats) *Violation {
 		if c.K%3 == 0 {
 			src2 = &chunkSrc{data: c.Stream2, chunks: []int{1 + c.K%7}, failAfter: -1}
 		}
+		if c.K%5 == 1 {
+			// a caller-supplied *bufio.Reader of any size, with the caller's own bytes after the stream
+			bufA = bufio.NewReaderSize(bytes.NewReader(append(append([]byte{}, c.Stream2...), c13Suffix...)), 16+c.K%300)
+			src2 = bufA
+		}
 		switch c.Pkg {
 		case "flate":
 			rerr = rd.(resetter).Reset(src2, nil)
@@ -225,6 +249,10 @@ func checkC13(c *Case, st *Stats) *Violation {
 	var fsrc io.Reader = bytes.NewReader(c.Stream2)
 	if c.K%3 == 0 {
 		fsrc = &chunkSrc{data: c.Stream2, chunks: []int{1 + c.K%7}, failAfter: -1}
+	}
+	if c.K%5 == 1 {
+		bufB = bufio.NewReaderSize(bytes.NewReader(append(append([]byte{}, c.Stream2...), c13Suffix...)), 16+c.K%300)
+		fsrc = bufB
 	}
 	fresh, ferr := newFastReader(c.Pkg, "new", fsrc, c.Dict)
 	if errKind(rerr) != errKind(ferr) {
@@ -253,6 +281,13 @@ func checkC13(c *Case, st *Stats) *Violation {
 			return viol(c, "truncated-tail<=2", "%s Reader after Reset: truncated next input, %d vs %d bytes before io.ErrUnexpectedEOF (both correct prefixes)", c.Pkg, len(a.Out), len(b.Out))
 		}
 		return viol(c, fmt.Sprintf("reset-output/%s/%s", c.Pkg, nk), "%s Reader after history %q and Reset: delivers %d bytes, a fresh Reader on the same input delivers %d (first diff at %d); next input %s; errors %v / %v", c.Pkg, c.Kind, len(a.Out), len(b.Out), firstDiff(a.Out, b.Out), c.Note, a.Err, b.Err)
+	}
+	if bufA != nil && bufB != nil && a.Err == io.EOF && b.Err == io.EOF {
+		restA, _ := io.ReadAll(bufA)
+		restB, _ := io.ReadAll(bufB)
+		if !bytes.Equal(restA, restB) {
+			return viol(c, "reset-consumption/"+c.Pkg, "%s Reader after Reset onto a %d-byte bufio.Reader leaves %d bytes after the stream unread, a fresh Reader leaves %d (the caller's %d bytes follow the stream)", c.Pkg, 16+c.K%300, len(restA), len(restB), len(c13Suffix))
+		}
 	}
 	if errKind(a.Err) != errKind(b.Err) {
 		return viol(c, fmt.Sprintf("reset-error/%s/%s", c.Pkg, nk), "%s Reader after history %q and Reset ends with %v, a fresh Reader with %v; next input %s", c.Pkg, c.Kind, a.Err, b.Err, c.Note)
